@@ -14,11 +14,19 @@ SPEC = dict(
          'C-string view: bytes and view[length()]==0 (always, except for unterminated-attached Strings whose view detaches them: sampled with the per-case rate so that the state survives); '
          'every literal / attached source block of a live String and every const char* input block (all exactly-sized heap blocks, attach blocks with guard bytes or following text) '
          'is compared with its original after every operation and all blocks of the case once more after all Strings are destroyed; results of queries/producers are compared with the '
-         'naive model (pointers as offsets, compare results by sign).',
+         'naive model (pointers as offsets, compare results by sign). '
+         'Growth from empty (added for seeded C06-A4): resize(n) is followed DIRECTLY - before the harness touches the String through operator char*() or any other mutable access - by the const '
+         'C-string view (view[length()]==0, preserved prefix), then (2 of 3) by const consumers on the untouched result (==/!=, startsWith/endsWith, find/findLast and, for NUL-free bytes, the compare family, '
+         'find(str)*, findOneOf/findLastOf, token) against a related String of any argument class, the model adopting the unspecified exposed bytes until they are written; a composite operation puts a variable '
+         'into one of 13 empty representations (default, literal "", cleared in place, cleared copy of a shared buffer, cleared owned buffer with old bytes, attached empty terminated/unterminated, '
+         'String(capacity), reserve on default, resize(0), assigned from String(), String(buf,0), empty buffer shared by two variables), applies one of 9 growth operations (resize, append String/buf/char, '
+         'prepend String/buf, join, reserve+append, printf) and then a const-view consumer (==, find, startsWith, compare, token); every (growth operation, receiver class x empty/non-empty) pair whose view was '
+         'checked directly after the operation is recorded.',
     assumptions=[
         'ASan/UBSan heap red zones around exactly-sized argument blocks; 0xbe malloc fill makes missing terminators/uninitialised bytes deterministic; library ASSERTs enabled',
         'attach(p, n) requires p[n] to be readable (the C-string view inspects it); attach blocks always have at least one byte behind the text',
-        'bytes exposed by a growing resize() are unspecified: the harness checks length and the preserved prefix, then writes the new bytes through operator char*() before comparing',
+        'bytes exposed by a growing resize() are unspecified: the harness checks length, the terminator of the const view and the preserved prefix, lets the model adopt the exposed bytes for the const '
+        'queries that follow directly (C-string based ones only if those bytes are NUL-free; no random draw depends on them), then writes the new bytes through operator char*() before the history goes on',
         'preconditions taken from the code and excluded from generation: empty needle for replace(String,String) and findLast(const char*) (both walk forever / past the terminator), '
         'NUL as char needle/separator/replacement, token(const char* separators, start) with start > length() (the char overload checks start itself and is driven up to length()+3), '
         'const char* arguments that point into the receiver\'s own buffer (only String-typed self-arguments are in the statement), printf("%s") of the receiver\'s own view',
@@ -39,9 +47,17 @@ SPEC = dict(
     floors={Q: dict(ops=1200000, variable_checks=7000000, view_terminator_checks=7000000, source_block_checks=3500000, query_results_compared=1000000,
                     self_arg_ops=90000, arg_shares_receiver_buffer_ops=50000, mut_owned_shared=70000, mut_literal_attached=25000, mut_attached_unterminated=20000,
                     mut_empty_default=14000, replace_with_match=30000, tokens_checked=1000000, nul_mode_cases=600,
-                    **{'set:matrix_op_recv_arg': 650, 'set:needle_patterns_4letter': 85, 'set:printf_result_lengths': 25}),
+                    resize_const_view_directly_checked=150000, resize_grow_from_length0_const_view_checked=50000, resize_grow_from_length0_empty_default=7000,
+                    resize_grow_from_length0_literal_attached=6000, resize_grow_from_length0_attached_unterminated=2500, resize_grow_from_length0_owned_exclusive=25000,
+                    resize_grow_from_length0_owned_shared=3000, growth_from_empty_view_checked=250000, const_consumer_rounds=100000, const_consumer_rounds_cstring=50000,
+                    empty_state_growth_sequences_grown=90000,
+                    **{'set:matrix_op_recv_arg': 650, 'set:needle_patterns_4letter': 85, 'set:printf_result_lengths': 25, 'set:empty_state_x_growth_op': 117, 'set:growth_op_by_receiver_class': 125}),
             T: dict(ops=50000000, variable_checks=300000000, view_terminator_checks=300000000, source_block_checks=140000000, query_results_compared=40000000,
                     self_arg_ops=4000000, arg_shares_receiver_buffer_ops=2000000, mut_owned_shared=3000000, mut_literal_attached=1000000, mut_attached_unterminated=800000,
                     mut_empty_default=600000, replace_with_match=1200000, tokens_checked=40000000, nul_mode_cases=24000,
-                    **{'set:matrix_op_recv_arg': 700, 'set:needle_patterns_4letter': 85, 'set:printf_result_lengths': 25})},
+                    resize_const_view_directly_checked=1500000, resize_grow_from_length0_const_view_checked=500000, resize_grow_from_length0_empty_default=70000,
+                    resize_grow_from_length0_literal_attached=60000, resize_grow_from_length0_attached_unterminated=25000, resize_grow_from_length0_owned_exclusive=250000,
+                    resize_grow_from_length0_owned_shared=30000, growth_from_empty_view_checked=2500000, const_consumer_rounds=1000000, const_consumer_rounds_cstring=500000,
+                    empty_state_growth_sequences_grown=900000,
+                    **{'set:matrix_op_recv_arg': 700, 'set:needle_patterns_4letter': 85, 'set:printf_result_lengths': 25, 'set:empty_state_x_growth_op': 117, 'set:growth_op_by_receiver_class': 125})},
 )
